@@ -48,6 +48,203 @@ where
         ok(list(vec![Self::ef(a), Self::ef(b)]))
     }
 
+    // ---- op bodies: the calls into the real library, shared by the generator and the replay mode
+
+    pub fn op_hg_new(a: &RHG) -> Sx {
+        match Hypergraph::<K, usize, usize>::new(Cv::<K>::icf(&a.s), Cv::<K>::icf(&a.t), Cv::<K>::sf(&a.w), Cv::<K>::sf(&a.x)) {
+            Ok(h) => ok(Self::eh(&h)),
+            Err(e) => err(hg_err(&e)),
+        }
+    }
+    pub fn op_hg_empty() -> Sx {
+        ok(Self::eh(&Hypergraph::<K, usize, usize>::empty()))
+    }
+    pub fn op_hg_discrete(a: &[usize]) -> Sx {
+        ok(Self::eh(&Hypergraph::<K, usize, usize>::discrete(Cv::<K>::sf(a))))
+    }
+    pub fn op_hg_is_discrete(a: &RHG) -> Sx {
+        ok(b(Cv::<K>::hg(a).is_discrete()))
+    }
+    pub fn op_hg_coproduct(a: &RHG, bb: &RHG) -> Sx {
+        ok(Self::eh(&Cv::<K>::hg(a).coproduct(&Cv::<K>::hg(bb))))
+    }
+    pub fn op_hg_tensor_operations(x1: &[usize], a1: &RICS, b1: &RICS) -> Sx {
+        ok(Self::eh(&Hypergraph::tensor_operations(Cv::<K>::ops(x1, a1, b1))))
+    }
+    pub fn op_hg_in_degree(a: &RHG, v: usize) -> Sx {
+        ok(n(Cv::<K>::hg(a).in_degree(v)))
+    }
+    pub fn op_hg_out_degree(a: &RHG, v: usize) -> Sx {
+        ok(n(Cv::<K>::hg(a).out_degree(v)))
+    }
+    pub fn op_hg_coequalize_vertices(a: &RHG, qq: &RFF) -> Sx {
+        opt(Cv::<K>::hg(a).coequalize_vertices(&Cv::<K>::ff(qq)).map(|r| Self::eh(&r)))
+    }
+    pub fn op_hg_is_acyclic(a: &RHG) -> Sx {
+        ok(b(Cv::<K>::hg(a).is_acyclic()))
+    }
+
+    pub fn op_oh_new(s1: &RFF, t1: &RFF, a: &RHG) -> Sx {
+        match OpenHypergraph::<K, usize, usize>::new(Cv::<K>::ff(s1), Cv::<K>::ff(t1), Cv::<K>::hg(a)) {
+            Ok(f) => ok(Self::ef(&f)),
+            Err(e) => err(oh_err(&e)),
+        }
+    }
+    pub fn op_oh_singleton(x: usize, a1: &[usize], b1: &[usize]) -> Sx {
+        ok(Self::ef(&OpenHypergraph::<K, usize, usize>::singleton(x, Cv::<K>::sf(a1), Cv::<K>::sf(b1))))
+    }
+    pub fn op_oh_tensor_operations(x1: &[usize], a1: &RICS, b1: &RICS) -> Sx {
+        ok(Self::ef(&OpenHypergraph::tensor_operations(Cv::<K>::ops(x1, a1, b1))))
+    }
+    pub fn op_oh_source(a: &ROH) -> Sx {
+        ok(l(&Cv::<K>::rsf(&Cv::<K>::oh(a).source())))
+    }
+    pub fn op_oh_target(a: &ROH) -> Sx {
+        ok(l(&Cv::<K>::rsf(&Cv::<K>::oh(a).target())))
+    }
+    pub fn op_oh_dagger(a: &ROH) -> Sx {
+        ok(Self::ef(&Cv::<K>::oh(a).dagger()))
+    }
+    pub fn op_oh_identity(a: &[usize]) -> Sx {
+        ok(Self::ef(&OpenHypergraph::<K, usize, usize>::identity(Cv::<K>::sf(a))))
+    }
+    pub fn op_oh_twist(a: &[usize], bb: &[usize]) -> Sx {
+        ok(Self::ef(&OpenHypergraph::<K, usize, usize>::twist(Cv::<K>::sf(a), Cv::<K>::sf(bb))))
+    }
+    pub fn op_oh_spider(s1: &RFF, t1: &RFF, w1: &[usize]) -> Sx {
+        Self::eof(OpenHypergraph::<K, usize, usize>::spider(Cv::<K>::ff(s1), Cv::<K>::ff(t1), Cv::<K>::sf(w1)))
+    }
+    pub fn op_oh_half_spider(s1: &RFF, w1: &[usize]) -> Sx {
+        Self::eof(<OpenHypergraph<K, usize, usize> as Spider<K>>::half_spider(Cv::<K>::ff(s1), Cv::<K>::sf(w1)))
+    }
+    pub fn op_oh_tensor(a: &ROH, bb: &ROH) -> Sx {
+        ok(Self::ef(&Cv::<K>::oh(a).tensor(&Cv::<K>::oh(bb))))
+    }
+    pub fn op_oh_compose(a: &ROH, bb: &ROH) -> Sx {
+        Self::eof(Cv::<K>::oh(a).compose(&Cv::<K>::oh(bb)))
+    }
+    pub fn op_oh_is_monogamous(a: &ROH) -> Sx {
+        ok(b(Cv::<K>::oh(a).is_monogamous()))
+    }
+    pub fn op_oh_is_acyclic(a: &ROH) -> Sx {
+        ok(b(Cv::<K>::oh(a).is_acyclic()))
+    }
+
+    pub fn law_assoc(f1: &ROH, g1: &ROH, h1: &ROH) -> Sx {
+        let (f, g, h) = (Cv::<K>::oh(f1), Cv::<K>::oh(g1), Cv::<K>::oh(h1));
+        let lhs = f.compose(&g).unwrap().compose(&h).unwrap();
+        let rhs = f.compose(&g.compose(&h).unwrap()).unwrap();
+        Self::pair(&lhs, &rhs)
+    }
+    pub fn law_id_left(f1: &ROH) -> Sx {
+        let f = Cv::<K>::oh(f1);
+        let lhs = OpenHypergraph::identity(f.source()).compose(&f).unwrap();
+        Self::pair(&lhs, &f)
+    }
+    pub fn law_id_right(f1: &ROH) -> Sx {
+        let f = Cv::<K>::oh(f1);
+        let lhs = f.compose(&OpenHypergraph::identity(f.target())).unwrap();
+        Self::pair(&lhs, &f)
+    }
+    /// wire argument order: f, g, f2, g2
+    pub fn law_interchange(a: &ROH, bb: &ROH, a2: &ROH, b2: &ROH) -> Sx {
+        let (f, f2, g, g2) = (Cv::<K>::oh(a), Cv::<K>::oh(a2), Cv::<K>::oh(bb), Cv::<K>::oh(b2));
+        let lhs = f.tensor(&g).compose(&f2.tensor(&g2)).unwrap();
+        let rhs = f.compose(&f2).unwrap().tensor(&g.compose(&g2).unwrap());
+        Self::pair(&lhs, &rhs)
+    }
+    pub fn law_twist_natural(a: &ROH, bb: &ROH) -> Sx {
+        let (f, g) = (Cv::<K>::oh(a), Cv::<K>::oh(bb));
+        let lhs = f.tensor(&g).compose(&OpenHypergraph::twist(f.target(), g.target())).unwrap();
+        let rhs = OpenHypergraph::twist(f.source(), g.source()).compose(&g.tensor(&f)).unwrap();
+        Self::pair(&lhs, &rhs)
+    }
+    pub fn law_twist_twist(a1: &[usize], b1: &[usize]) -> Sx {
+        let (sa, sb) = (Cv::<K>::sf(a1), Cv::<K>::sf(b1));
+        let lhs = OpenHypergraph::<K, usize, usize>::twist(sa.clone(), sb.clone())
+            .compose(&OpenHypergraph::twist(sb.clone(), sa.clone()))
+            .unwrap();
+        let rhs = OpenHypergraph::identity(sa + sb);
+        Self::pair(&lhs, &rhs)
+    }
+    pub fn law_hexagon(a1: &[usize], b1: &[usize], c1: &[usize]) -> Sx {
+        let (sa, sb, sc) = (Cv::<K>::sf(a1), Cv::<K>::sf(b1), Cv::<K>::sf(c1));
+        let id = |x: &SF<K>| OpenHypergraph::<K, usize, usize>::identity(x.clone());
+        let lhs = OpenHypergraph::<K, usize, usize>::twist(sa.clone(), sb.clone() + sc.clone());
+        let rhs = OpenHypergraph::twist(sa.clone(), sb.clone())
+            .tensor(&id(&sc))
+            .compose(&id(&sb).tensor(&OpenHypergraph::twist(sa.clone(), sc.clone())))
+            .unwrap();
+        Self::pair(&lhs, &rhs)
+    }
+    pub fn law_hexagon_mirror(a1: &[usize], b1: &[usize], c1: &[usize]) -> Sx {
+        let (sa, sb, sc) = (Cv::<K>::sf(a1), Cv::<K>::sf(b1), Cv::<K>::sf(c1));
+        let id = |x: &SF<K>| OpenHypergraph::<K, usize, usize>::identity(x.clone());
+        let lhs = OpenHypergraph::<K, usize, usize>::twist(sa.clone() + sb.clone(), sc.clone());
+        let rhs = id(&sa)
+            .tensor(&OpenHypergraph::twist(sb.clone(), sc.clone()))
+            .compose(&OpenHypergraph::twist(sa.clone(), sc.clone()).tensor(&id(&sb)))
+            .unwrap();
+        Self::pair(&lhs, &rhs)
+    }
+    pub fn law_dagger_comp(a: &ROH, bb: &ROH) -> Sx {
+        let (f, g) = (Cv::<K>::oh(a), Cv::<K>::oh(bb));
+        let lhs = f.compose(&g).unwrap().dagger();
+        let rhs = g.dagger().compose(&f.dagger()).unwrap();
+        Self::pair(&lhs, &rhs)
+    }
+    pub fn law_dagger_dagger(a: &ROH) -> Sx {
+        let f = Cv::<K>::oh(a);
+        Self::pair(&f.dagger().dagger(), &f)
+    }
+    pub fn law_dagger_tensor(a: &ROH, bb: &ROH) -> Sx {
+        let (f, g) = (Cv::<K>::oh(a), Cv::<K>::oh(bb));
+        Self::pair(&f.tensor(&g).dagger(), &f.dagger().tensor(&g.dagger()))
+    }
+    pub fn law_tensor_assoc(f1: &ROH, g1: &ROH, h1: &ROH) -> Sx {
+        let (f, g, h) = (Cv::<K>::oh(f1), Cv::<K>::oh(g1), Cv::<K>::oh(h1));
+        Self::pair(&f.tensor(&g).tensor(&h), &f.tensor(&g.tensor(&h)))
+    }
+    pub fn law_tensor_unit_left(f1: &ROH) -> Sx {
+        let f = Cv::<K>::oh(f1);
+        let e = OpenHypergraph::<K, usize, usize>::identity(Cv::<K>::sf(&[]));
+        Self::pair(&e.tensor(&f), &f)
+    }
+    pub fn law_tensor_unit_right(f1: &ROH) -> Sx {
+        let f = Cv::<K>::oh(f1);
+        let e = OpenHypergraph::<K, usize, usize>::identity(Cv::<K>::sf(&[]));
+        Self::pair(&f.tensor(&e), &f)
+    }
+    pub fn law_spider_fusion(sa: &RFF, ta: &RFF, wa: &Vec<usize>, sb: &RFF, tb: &RFF, wb: &Vec<usize>) -> Sx {
+        let sp1 = OpenHypergraph::<K, usize, usize>::spider(Cv::<K>::ff(sa), Cv::<K>::ff(ta), Cv::<K>::sf(wa)).unwrap();
+        let sp2 = OpenHypergraph::<K, usize, usize>::spider(Cv::<K>::ff(sb), Cv::<K>::ff(tb), Cv::<K>::sf(wb)).unwrap();
+        let lhs = sp1.compose(&sp2).unwrap();
+        // the fused spider, computed from the finite-function algebra
+        let (n1, n2) = (wa.len(), wb.len());
+        let q = Cv::<K>::ff(ta).inject0(n2).coequalizer(&Cv::<K>::ff(sb).inject1(n1)).unwrap();
+        let s3 = Cv::<K>::ff(sa).inject0(n2).compose(&q).unwrap();
+        let t3 = Cv::<K>::ff(tb).inject1(n1).compose(&q).unwrap();
+        let mut wab = wa.clone();
+        wab.extend(wb.iter());
+        let w3 = coequalizer_universal::<K, usize>(&q, &K::arr(wab)).unwrap();
+        let rhs = OpenHypergraph::<K, usize, usize>::spider(s3, t3, open_hypergraphs::semifinite::SemifiniteFunction(w3)).unwrap();
+        assert!(lhs.h.is_discrete());
+        Self::pair(&lhs, &rhs)
+    }
+    pub fn law_identity_is_spider(a1: &[usize]) -> Sx {
+        let id = FiniteFunction::<K>::identity(a1.len());
+        let sp = OpenHypergraph::<K, usize, usize>::spider(id.clone(), id, Cv::<K>::sf(a1)).unwrap();
+        Self::pair(&OpenHypergraph::identity(Cv::<K>::sf(a1)), &sp)
+    }
+    pub fn law_twist_is_spider(a1: &[usize], b1: &[usize]) -> Sx {
+        let s = FiniteFunction::<K>::twist(a1.len(), b1.len());
+        let t = FiniteFunction::<K>::identity(a1.len() + b1.len());
+        let mut ba = b1.to_vec();
+        ba.extend(a1.iter());
+        let sp = OpenHypergraph::<K, usize, usize>::spider(s, t, Cv::<K>::sf(&ba)).unwrap();
+        Self::pair(&OpenHypergraph::twist(Cv::<K>::sf(a1), Cv::<K>::sf(b1)), &sp)
+    }
+
     /// a hypergraph violating exactly one of the four documented equations (or none)
     fn maybe_broken_hg(c: &mut Ctx, p: &gen::HgParams) -> RHG {
         let mut h = gen::hg(&mut c.rng, p);
@@ -80,27 +277,22 @@ where
                 0 | 1 => {
                     let h = Self::maybe_broken_hg(c, &p);
                     let a = h.clone();
-                    c.emit("hg.new", vec![h.s.enc(), h.t.enc(), l(&h.w), l(&h.x)], move || {
-                        match Hypergraph::<K, usize, usize>::new(Cv::<K>::icf(&a.s), Cv::<K>::icf(&a.t), Cv::<K>::sf(&a.w), Cv::<K>::sf(&a.x)) {
-                            Ok(h) => ok(Self::eh(&h)),
-                            Err(e) => err(hg_err(&e)),
-                        }
-                    });
+                    c.emit("hg.new", vec![h.s.enc(), h.t.enc(), l(&h.w), l(&h.x)], move || Self::op_hg_new(&a));
                 }
                 2 => {
-                    c.emit("hg.empty", vec![], move || ok(Self::eh(&Hypergraph::<K, usize, usize>::empty())));
+                    c.emit("hg.empty", vec![], move || Self::op_hg_empty());
                     let w = gen::list_below(&mut c.rng, p.max_nodes, p.node_labels);
                     let a = w.clone();
-                    c.emit("hg.discrete", vec![l(&w)], move || ok(Self::eh(&Hypergraph::<K, usize, usize>::discrete(Cv::<K>::sf(&a)))));
+                    c.emit("hg.discrete", vec![l(&w)], move || Self::op_hg_discrete(&a));
                     let h = if c.rng.chance(1, 2) { gen::hg(&mut c.rng, &p) } else { RHG { s: RICF::from_segs(&[], w.len()), t: RICF::from_segs(&[], w.len()), w: w.clone(), x: vec![] } };
                     let a = h.clone();
-                    c.emit("hg.is_discrete", vec![h.enc()], move || ok(b(Cv::<K>::hg(&a).is_discrete())));
+                    c.emit("hg.is_discrete", vec![h.enc()], move || Self::op_hg_is_discrete(&a));
                 }
                 3 | 4 => {
                     let g = gen::hg(&mut c.rng, &p);
                     let h = gen::hg(&mut c.rng, &p);
                     let (a, bb) = (g.clone(), h.clone());
-                    c.emit("hg.coproduct", vec![g.enc(), h.enc()], move || ok(Self::eh(&Cv::<K>::hg(&a).coproduct(&Cv::<K>::hg(&bb)))));
+                    c.emit("hg.coproduct", vec![g.enc(), h.enc()], move || Self::op_hg_coproduct(&a, &bb));
                 }
                 5 => {
                     let k = c.rng.size(p.max_edges);
@@ -108,9 +300,7 @@ where
                     let a = RICS::from_segs(&gen::segs_n(&mut c.rng, k, p.max_arity, p.node_labels));
                     let bb = RICS::from_segs(&gen::segs_n(&mut c.rng, k, p.max_arity, p.node_labels));
                     let (x1, a1, b1) = (x.clone(), a.clone(), bb.clone());
-                    c.emit("hg.tensor_operations", vec![l(&x), a.enc(), bb.enc()], move || {
-                        ok(Self::eh(&Hypergraph::tensor_operations(Cv::<K>::ops(&x1, &a1, &b1))))
-                    });
+                    c.emit("hg.tensor_operations", vec![l(&x), a.enc(), bb.enc()], move || Self::op_hg_tensor_operations(&x1, &a1, &b1));
                 }
                 6 | 7 => {
                     let h = gen::hg(&mut c.rng, &p);
@@ -119,9 +309,9 @@ where
                         c.knob("hg:degree-node-out-of-range");
                     }
                     let a = h.clone();
-                    c.emit("hg.in_degree", vec![h.enc(), n(v)], move || ok(n(Cv::<K>::hg(&a).in_degree(v))));
+                    c.emit("hg.in_degree", vec![h.enc(), n(v)], move || Self::op_hg_in_degree(&a, v));
                     let a = h.clone();
-                    c.emit("hg.out_degree", vec![h.enc(), n(v)], move || ok(n(Cv::<K>::hg(&a).out_degree(v))));
+                    c.emit("hg.out_degree", vec![h.enc(), n(v)], move || Self::op_hg_out_degree(&a, v));
                 }
                 8 | 9 => {
                     // quotient of the node set by a surjection that respects labels (mostly)
@@ -157,14 +347,12 @@ where
                         qf.target = seen.len();
                     }
                     let (a, qq) = (h.clone(), qf.clone());
-                    c.emit("hg.coequalize_vertices", vec![h.enc(), qf.enc()], move || {
-                        opt(Cv::<K>::hg(&a).coequalize_vertices(&Cv::<K>::ff(&qq)).map(|r| Self::eh(&r)))
-                    });
+                    c.emit("hg.coequalize_vertices", vec![h.enc(), qf.enc()], move || Self::op_hg_coequalize_vertices(&a, &qq));
                 }
                 _ => {
                     let h = gen::hg(&mut c.rng, &p);
                     let a = h.clone();
-                    c.emit("hg.is_acyclic", vec![h.enc()], move || ok(b(Cv::<K>::hg(&a).is_acyclic())));
+                    c.emit("hg.is_acyclic", vec![h.enc()], move || Self::op_hg_is_acyclic(&a));
                 }
             }
         }
@@ -190,47 +378,36 @@ where
                         _ => {}
                     }
                     let (a, s1, t1) = (h.clone(), s.clone(), t.clone());
-                    c.emit("oh.new", vec![s.enc(), t.enc(), h.enc()], move || {
-                        match OpenHypergraph::<K, usize, usize>::new(Cv::<K>::ff(&s1), Cv::<K>::ff(&t1), Cv::<K>::hg(&a)) {
-                            Ok(f) => ok(Self::ef(&f)),
-                            Err(e) => err(oh_err(&e)),
-                        }
-                    });
+                    c.emit("oh.new", vec![s.enc(), t.enc(), h.enc()], move || Self::op_oh_new(&s1, &t1, &a));
                 }
                 2 => {
                     let (x, a, bb) = (c.rng.below(p.edge_labels), gen::list_below(&mut c.rng, 3, p.node_labels), gen::list_below(&mut c.rng, 3, p.node_labels));
                     let (a1, b1) = (a.clone(), bb.clone());
-                    c.emit("oh.singleton", vec![n(x), l(&a), l(&bb)], move || {
-                        ok(Self::ef(&OpenHypergraph::<K, usize, usize>::singleton(x, Cv::<K>::sf(&a1), Cv::<K>::sf(&b1))))
-                    });
+                    c.emit("oh.singleton", vec![n(x), l(&a), l(&bb)], move || Self::op_oh_singleton(x, &a1, &b1));
                     let k = c.rng.size(p.max_edges);
                     let xs = c.rng.vec_below(k, p.edge_labels);
                     let ia = RICS::from_segs(&gen::segs_n(&mut c.rng, k, p.max_arity, p.node_labels));
                     let ib = RICS::from_segs(&gen::segs_n(&mut c.rng, k, p.max_arity, p.node_labels));
                     let (x1, a1, b1) = (xs.clone(), ia.clone(), ib.clone());
-                    c.emit("oh.tensor_operations", vec![l(&xs), ia.enc(), ib.enc()], move || {
-                        ok(Self::ef(&OpenHypergraph::tensor_operations(Cv::<K>::ops(&x1, &a1, &b1))))
-                    });
+                    c.emit("oh.tensor_operations", vec![l(&xs), ia.enc(), ib.enc()], move || Self::op_oh_tensor_operations(&x1, &a1, &b1));
                 }
                 3 => {
                     let f = gen::oh(&mut c.rng, &p);
                     gen::knobs_oh(c, &f);
                     let a = f.clone();
-                    c.emit("oh.source", vec![f.enc()], move || ok(l(&Cv::<K>::rsf(&Cv::<K>::oh(&a).source()))));
+                    c.emit("oh.source", vec![f.enc()], move || Self::op_oh_source(&a));
                     let a = f.clone();
-                    c.emit("oh.target", vec![f.enc()], move || ok(l(&Cv::<K>::rsf(&Cv::<K>::oh(&a).target()))));
+                    c.emit("oh.target", vec![f.enc()], move || Self::op_oh_target(&a));
                     let a = f.clone();
-                    c.emit("oh.dagger", vec![f.enc()], move || ok(Self::ef(&Cv::<K>::oh(&a).dagger())));
+                    c.emit("oh.dagger", vec![f.enc()], move || Self::op_oh_dagger(&a));
                 }
                 4 => {
                     let w = gen::list_below(&mut c.rng, p.max_nodes, p.node_labels);
                     let a = w.clone();
-                    c.emit("oh.identity", vec![l(&w)], move || ok(Self::ef(&OpenHypergraph::<K, usize, usize>::identity(Cv::<K>::sf(&a)))));
+                    c.emit("oh.identity", vec![l(&w)], move || Self::op_oh_identity(&a));
                     let w2 = gen::list_below(&mut c.rng, p.max_nodes, p.node_labels);
                     let (a, bb) = (w.clone(), w2.clone());
-                    c.emit("oh.twist", vec![l(&w), l(&w2)], move || {
-                        ok(Self::ef(&OpenHypergraph::<K, usize, usize>::twist(Cv::<K>::sf(&a), Cv::<K>::sf(&bb))))
-                    });
+                    c.emit("oh.twist", vec![l(&w), l(&w2)], move || Self::op_oh_twist(&a, &bb));
                 }
                 5 | 6 => {
                     // spiders: legs that land (or not) in the node list
@@ -249,20 +426,16 @@ where
                         _ => {}
                     }
                     let (s1, t1, w1) = (s.clone(), t.clone(), w.clone());
-                    c.emit("oh.spider", vec![s.enc(), t.enc(), l(&w)], move || {
-                        Self::eof(OpenHypergraph::<K, usize, usize>::spider(Cv::<K>::ff(&s1), Cv::<K>::ff(&t1), Cv::<K>::sf(&w1)))
-                    });
+                    c.emit("oh.spider", vec![s.enc(), t.enc(), l(&w)], move || Self::op_oh_spider(&s1, &t1, &w1));
                     let (s1, w1) = (s.clone(), w.clone());
-                    c.emit("oh.half_spider", vec![s.enc(), l(&w)], move || {
-                        Self::eof(<OpenHypergraph<K, usize, usize> as Spider<K>>::half_spider(Cv::<K>::ff(&s1), Cv::<K>::sf(&w1)))
-                    });
+                    c.emit("oh.half_spider", vec![s.enc(), l(&w)], move || Self::op_oh_half_spider(&s1, &w1));
                 }
                 7 | 8 => {
                     let f = gen::oh(&mut c.rng, &p);
                     let g = gen::oh(&mut c.rng, &p);
                     gen::knobs_oh(c, &f);
                     let (a, bb) = (f.clone(), g.clone());
-                    c.emit("oh.tensor", vec![f.enc(), g.enc()], move || ok(Self::ef(&Cv::<K>::oh(&a).tensor(&Cv::<K>::oh(&bb)))));
+                    c.emit("oh.tensor", vec![f.enc(), g.enc()], move || Self::op_oh_tensor(&a, &bb));
                 }
                 9 | 10 | 11 | 12 | 13 | 14 => {
                     let (f, g) = if c.rng.chance(1, 7) {
@@ -274,21 +447,19 @@ where
                     gen::knobs_oh(c, &f);
                     gen::knobs_oh(c, &g);
                     let (a, bb) = (f.clone(), g.clone());
-                    c.emit("oh.compose", vec![f.enc(), g.enc()], move || {
-                        Self::eof(Cv::<K>::oh(&a).compose(&Cv::<K>::oh(&bb)))
-                    });
+                    c.emit("oh.compose", vec![f.enc(), g.enc()], move || Self::op_oh_compose(&a, &bb));
                 }
                 15 | 16 | 17 => {
                     // monogamy: mostly monogamous-by-construction diagrams with one defect sometimes
                     let f = if c.rng.chance(1, 2) { gen::oh(&mut c.rng, &p) } else { Self::monogamous(c, &p) };
                     gen::knobs_oh(c, &f);
                     let a = f.clone();
-                    c.emit("oh.is_monogamous", vec![f.enc()], move || ok(b(Cv::<K>::oh(&a).is_monogamous())));
+                    c.emit("oh.is_monogamous", vec![f.enc()], move || Self::op_oh_is_monogamous(&a));
                 }
                 _ => {
                     let f = gen::oh(&mut c.rng, &p);
                     let a = f.clone();
-                    c.emit("oh.is_acyclic", vec![f.enc()], move || ok(b(Cv::<K>::oh(&a).is_acyclic())));
+                    c.emit("oh.is_acyclic", vec![f.enc()], move || Self::op_oh_is_acyclic(&a));
                 }
             }
         }
@@ -369,133 +540,63 @@ where
                     let (f, g) = gen::composable_pair(&mut c.rng, &p);
                     let h = gen::oh_with_source(&mut c.rng, &Self::ty(&g).1, &p);
                     let (f1, g1, h1) = (f.clone(), g.clone(), h.clone());
-                    c.emit("law.assoc", vec![f.enc(), g.enc(), h.enc()], move || {
-                        let (f, g, h) = (Cv::<K>::oh(&f1), Cv::<K>::oh(&g1), Cv::<K>::oh(&h1));
-                        let lhs = f.compose(&g).unwrap().compose(&h).unwrap();
-                        let rhs = f.compose(&g.compose(&h).unwrap()).unwrap();
-                        Self::pair(&lhs, &rhs)
-                    });
+                    c.emit("law.assoc", vec![f.enc(), g.enc(), h.enc()], move || Self::law_assoc(&f1, &g1, &h1));
                 }
                 2 => {
                     let f = gen::oh(&mut c.rng, &p);
                     let f1 = f.clone();
-                    c.emit("law.id_left", vec![f.enc()], move || {
-                        let f = Cv::<K>::oh(&f1);
-                        let lhs = OpenHypergraph::identity(f.source()).compose(&f).unwrap();
-                        Self::pair(&lhs, &f)
-                    });
+                    c.emit("law.id_left", vec![f.enc()], move || Self::law_id_left(&f1));
                     let f1 = f.clone();
-                    c.emit("law.id_right", vec![f.enc()], move || {
-                        let f = Cv::<K>::oh(&f1);
-                        let lhs = f.compose(&OpenHypergraph::identity(f.target())).unwrap();
-                        Self::pair(&lhs, &f)
-                    });
+                    c.emit("law.id_right", vec![f.enc()], move || Self::law_id_right(&f1));
                 }
                 3 | 4 => {
                     let (f, f2) = gen::composable_pair(&mut c.rng, &p);
                     let (g, g2) = gen::composable_pair(&mut c.rng, &p);
                     let (a, a2, bb, b2) = (f.clone(), f2.clone(), g.clone(), g2.clone());
-                    c.emit("law.interchange", vec![f.enc(), g.enc(), f2.enc(), g2.enc()], move || {
-                        let (f, f2, g, g2) = (Cv::<K>::oh(&a), Cv::<K>::oh(&a2), Cv::<K>::oh(&bb), Cv::<K>::oh(&b2));
-                        let lhs = f.tensor(&g).compose(&f2.tensor(&g2)).unwrap();
-                        let rhs = f.compose(&f2).unwrap().tensor(&g.compose(&g2).unwrap());
-                        Self::pair(&lhs, &rhs)
-                    });
+                    c.emit("law.interchange", vec![f.enc(), g.enc(), f2.enc(), g2.enc()], move || Self::law_interchange(&a, &bb, &a2, &b2));
                 }
                 5 | 6 => {
                     let f = gen::oh(&mut c.rng, &p);
                     let g = gen::oh(&mut c.rng, &p);
                     let (a, bb) = (f.clone(), g.clone());
-                    c.emit("law.twist_natural", vec![f.enc(), g.enc()], move || {
-                        let (f, g) = (Cv::<K>::oh(&a), Cv::<K>::oh(&bb));
-                        let lhs = f.tensor(&g).compose(&OpenHypergraph::twist(f.target(), g.target())).unwrap();
-                        let rhs = OpenHypergraph::twist(f.source(), g.source()).compose(&g.tensor(&f)).unwrap();
-                        Self::pair(&lhs, &rhs)
-                    });
+                    c.emit("law.twist_natural", vec![f.enc(), g.enc()], move || Self::law_twist_natural(&a, &bb));
                 }
                 7 => {
                     let a = gen::list_below(&mut c.rng, 4, p.node_labels);
                     let bb = gen::list_below(&mut c.rng, 4, p.node_labels);
                     let (a1, b1) = (a.clone(), bb.clone());
-                    c.emit("law.twist_twist", vec![l(&a), l(&bb)], move || {
-                        let (sa, sb) = (Cv::<K>::sf(&a1), Cv::<K>::sf(&b1));
-                        let lhs = OpenHypergraph::<K, usize, usize>::twist(sa.clone(), sb.clone())
-                            .compose(&OpenHypergraph::twist(sb.clone(), sa.clone()))
-                            .unwrap();
-                        let rhs = OpenHypergraph::identity(sa + sb);
-                        Self::pair(&lhs, &rhs)
-                    });
+                    c.emit("law.twist_twist", vec![l(&a), l(&bb)], move || Self::law_twist_twist(&a1, &b1));
                 }
                 8 => {
                     let a = gen::list_below(&mut c.rng, 3, p.node_labels);
                     let bb = gen::list_below(&mut c.rng, 3, p.node_labels);
                     let cc = gen::list_below(&mut c.rng, 3, p.node_labels);
                     let (a1, b1, c1) = (a.clone(), bb.clone(), cc.clone());
-                    c.emit("law.hexagon", vec![l(&a), l(&bb), l(&cc)], move || {
-                        let (sa, sb, sc) = (Cv::<K>::sf(&a1), Cv::<K>::sf(&b1), Cv::<K>::sf(&c1));
-                        let id = |x: &SF<K>| OpenHypergraph::<K, usize, usize>::identity(x.clone());
-                        let lhs = OpenHypergraph::<K, usize, usize>::twist(sa.clone(), sb.clone() + sc.clone());
-                        let rhs = OpenHypergraph::twist(sa.clone(), sb.clone())
-                            .tensor(&id(&sc))
-                            .compose(&id(&sb).tensor(&OpenHypergraph::twist(sa.clone(), sc.clone())))
-                            .unwrap();
-                        Self::pair(&lhs, &rhs)
-                    });
+                    c.emit("law.hexagon", vec![l(&a), l(&bb), l(&cc)], move || Self::law_hexagon(&a1, &b1, &c1));
                     let (a1, b1, c1) = (a.clone(), bb.clone(), cc.clone());
-                    c.emit("law.hexagon_mirror", vec![l(&a), l(&bb), l(&cc)], move || {
-                        let (sa, sb, sc) = (Cv::<K>::sf(&a1), Cv::<K>::sf(&b1), Cv::<K>::sf(&c1));
-                        let id = |x: &SF<K>| OpenHypergraph::<K, usize, usize>::identity(x.clone());
-                        let lhs = OpenHypergraph::<K, usize, usize>::twist(sa.clone() + sb.clone(), sc.clone());
-                        let rhs = id(&sa)
-                            .tensor(&OpenHypergraph::twist(sb.clone(), sc.clone()))
-                            .compose(&OpenHypergraph::twist(sa.clone(), sc.clone()).tensor(&id(&sb)))
-                            .unwrap();
-                        Self::pair(&lhs, &rhs)
-                    });
+                    c.emit("law.hexagon_mirror", vec![l(&a), l(&bb), l(&cc)], move || Self::law_hexagon_mirror(&a1, &b1, &c1));
                 }
                 9 | 10 => {
                     let (f, g) = gen::composable_pair(&mut c.rng, &p);
                     let (a, bb) = (f.clone(), g.clone());
-                    c.emit("law.dagger_comp", vec![f.enc(), g.enc()], move || {
-                        let (f, g) = (Cv::<K>::oh(&a), Cv::<K>::oh(&bb));
-                        let lhs = f.compose(&g).unwrap().dagger();
-                        let rhs = g.dagger().compose(&f.dagger()).unwrap();
-                        Self::pair(&lhs, &rhs)
-                    });
+                    c.emit("law.dagger_comp", vec![f.enc(), g.enc()], move || Self::law_dagger_comp(&a, &bb));
                 }
                 11 => {
                     let f = gen::oh(&mut c.rng, &p);
                     let g = gen::oh(&mut c.rng, &p);
                     let a = f.clone();
-                    c.emit("law.dagger_dagger:eq", vec![f.enc()], move || {
-                        let f = Cv::<K>::oh(&a);
-                        Self::pair(&f.dagger().dagger(), &f)
-                    });
+                    c.emit("law.dagger_dagger:eq", vec![f.enc()], move || Self::law_dagger_dagger(&a));
                     let (a, bb) = (f.clone(), g.clone());
-                    c.emit("law.dagger_tensor:eq", vec![f.enc(), g.enc()], move || {
-                        let (f, g) = (Cv::<K>::oh(&a), Cv::<K>::oh(&bb));
-                        Self::pair(&f.tensor(&g).dagger(), &f.dagger().tensor(&g.dagger()))
-                    });
+                    c.emit("law.dagger_tensor:eq", vec![f.enc(), g.enc()], move || Self::law_dagger_tensor(&a, &bb));
                 }
                 12 => {
                     let (f, g, h) = (gen::oh(&mut c.rng, &p), gen::oh(&mut c.rng, &p), gen::oh(&mut c.rng, &p));
                     let (f1, g1, h1) = (f.clone(), g.clone(), h.clone());
-                    c.emit("law.tensor_assoc:eq", vec![f.enc(), g.enc(), h.enc()], move || {
-                        let (f, g, h) = (Cv::<K>::oh(&f1), Cv::<K>::oh(&g1), Cv::<K>::oh(&h1));
-                        Self::pair(&f.tensor(&g).tensor(&h), &f.tensor(&g.tensor(&h)))
-                    });
+                    c.emit("law.tensor_assoc:eq", vec![f.enc(), g.enc(), h.enc()], move || Self::law_tensor_assoc(&f1, &g1, &h1));
                     let f1 = f.clone();
-                    c.emit("law.tensor_unit_left:eq", vec![f.enc()], move || {
-                        let f = Cv::<K>::oh(&f1);
-                        let e = OpenHypergraph::<K, usize, usize>::identity(Cv::<K>::sf(&[]));
-                        Self::pair(&e.tensor(&f), &f)
-                    });
+                    c.emit("law.tensor_unit_left:eq", vec![f.enc()], move || Self::law_tensor_unit_left(&f1));
                     let f1 = f.clone();
-                    c.emit("law.tensor_unit_right:eq", vec![f.enc()], move || {
-                        let f = Cv::<K>::oh(&f1);
-                        let e = OpenHypergraph::<K, usize, usize>::identity(Cv::<K>::sf(&[]));
-                        Self::pair(&f.tensor(&e), &f)
-                    });
+                    c.emit("law.tensor_unit_right:eq", vec![f.enc()], move || Self::law_tensor_unit_right(&f1));
                 }
                 13 | 14 | 15 => {
                     // spider fusion: (s,t,w);(s',t',w') with w∘t = w'∘s'
@@ -525,41 +626,15 @@ where
                     }
                     let args = vec![s.enc(), t.enc(), l(&w), s2.enc(), t2.enc(), l(&w2)];
                     let (sa, ta, wa, sb, tb, wb) = (s.clone(), t.clone(), w.clone(), s2.clone(), t2.clone(), w2.clone());
-                    c.emit("law.spider_fusion", args, move || {
-                        let sp1 = OpenHypergraph::<K, usize, usize>::spider(Cv::<K>::ff(&sa), Cv::<K>::ff(&ta), Cv::<K>::sf(&wa)).unwrap();
-                        let sp2 = OpenHypergraph::<K, usize, usize>::spider(Cv::<K>::ff(&sb), Cv::<K>::ff(&tb), Cv::<K>::sf(&wb)).unwrap();
-                        let lhs = sp1.compose(&sp2).unwrap();
-                        // the fused spider, computed from the finite-function algebra
-                        let (n1, n2) = (wa.len(), wb.len());
-                        let q = Cv::<K>::ff(&ta).inject0(n2).coequalizer(&Cv::<K>::ff(&sb).inject1(n1)).unwrap();
-                        let s3 = Cv::<K>::ff(&sa).inject0(n2).compose(&q).unwrap();
-                        let t3 = Cv::<K>::ff(&tb).inject1(n1).compose(&q).unwrap();
-                        let mut wab = wa.clone();
-                        wab.extend(wb.iter());
-                        let w3 = coequalizer_universal::<K, usize>(&q, &K::arr(wab)).unwrap();
-                        let rhs = OpenHypergraph::<K, usize, usize>::spider(s3, t3, open_hypergraphs::semifinite::SemifiniteFunction(w3)).unwrap();
-                        assert!(lhs.h.is_discrete());
-                        Self::pair(&lhs, &rhs)
-                    });
+                    c.emit("law.spider_fusion", args, move || Self::law_spider_fusion(&sa, &ta, &wa, &sb, &tb, &wb));
                 }
                 _ => {
                     let a = gen::list_below(&mut c.rng, 4, p.node_labels);
                     let bb = gen::list_below(&mut c.rng, 4, p.node_labels);
                     let a1 = a.clone();
-                    c.emit("law.identity_is_spider:eq", vec![l(&a)], move || {
-                        let id = FiniteFunction::<K>::identity(a1.len());
-                        let sp = OpenHypergraph::<K, usize, usize>::spider(id.clone(), id, Cv::<K>::sf(&a1)).unwrap();
-                        Self::pair(&OpenHypergraph::identity(Cv::<K>::sf(&a1)), &sp)
-                    });
+                    c.emit("law.identity_is_spider:eq", vec![l(&a)], move || Self::law_identity_is_spider(&a1));
                     let (a1, b1) = (a.clone(), bb.clone());
-                    c.emit("law.twist_is_spider:eq", vec![l(&a), l(&bb)], move || {
-                        let s = FiniteFunction::<K>::twist(a1.len(), b1.len());
-                        let t = FiniteFunction::<K>::identity(a1.len() + b1.len());
-                        let mut ba = b1.clone();
-                        ba.extend(a1.iter());
-                        let sp = OpenHypergraph::<K, usize, usize>::spider(s, t, Cv::<K>::sf(&ba)).unwrap();
-                        Self::pair(&OpenHypergraph::twist(Cv::<K>::sf(&a1), Cv::<K>::sf(&b1)), &sp)
-                    });
+                    c.emit("law.twist_is_spider:eq", vec![l(&a), l(&bb)], move || Self::law_twist_is_spider(&a1, &b1));
                 }
             }
         }
